@@ -9,9 +9,42 @@ TECH = "bounded symbolic execution of the real Rust source (Kani 0.68 proof harn
 
 # property -> (claim text, level note, design ref)
 CLAIMS = {
- "C05": ("Within the bounds listed per harness in the evidence file, CBMC decides for every value of the symbolic inputs that the CPC flavor/offset arithmetic equals its 64-bit specification and that one update step / table operation maintains the coupon-set model; a bounded claim, not a proof for all lg_k states.",
-         "Trusted: rustc->Kani->CBMC translation, CaDiCaL, the specifications and representation invariants in /verif/harness/cpc_*.rs; register state at lg_k=4 only, arithmetic for all lg_k.",
-         "DESIGN.md section 4 C05"),
+ "C01": ("Deterministic clauses only: for every estimator state within the per-harness bounds CBMC decides lower_bound(s) <= estimate <= upper_bound(s) and nesting in s for HLL (HIP path, all lg_k via the real error tables), theta/compact theta (clamping holds for every value of the binomial approximation; exact mode equals the retained count) and that a sampling theta sketch that was offered data is not reported empty. Bias, RSE, coverage rates and table values are statistical and NOT claimed.",
+         "Transcendental functions and the binomial approximations are over-approximated by arbitrary values (sound for the universally quantified ordering); float arithmetic is CBMC's IEEE-754 model.", "DESIGN.md section 4 C01"),
+ "C02": ("One update step of every HLL representation (list, hash set 8/16 slots, Array4 with <= 2 exceptions incl. the cur_min shift, Array6, Array8, aux map) from an arbitrary representation-invariant-satisfying state at lg_k = 4, the promotions list->set and list->array, and the coupon derivation, each compared with the per-slot-maximum / coupon-set model for all symbolic inputs within the bounds.",
+         "Representation invariants written in the harnesses are assumed inductive (each step re-establishes them); register state at lg_k = 4 only, index arithmetic for all lg_k; HipEstimator::update replaced by a call recorder in register-model harnesses.", "DESIGN.md section 4 C02"),
+ "C03": ("Union kernels (same-lg_k merge, down-sampling merge, cached-value rebuild) and the union of two array-mode inputs at lg_k = 3 with all registers, out-of-order flags and both input orders symbolic, plus to_sketch for the three target types: registers, lg_k, out-of-order flag and estimator state compared with the register-wise-maximum model.",
+         "lg_k 3/4 (code is parametric), at most two inputs (longer sequences follow from the model being a commutative idempotent fold - argued, not solved); coupon-mode inputs covered through the C02 harnesses.", "DESIGN.md section 4 C03"),
+ "C04": ("ThetaHashTable steps (probe sequence, try_insert, resize, rebuild, trim, reset) from arbitrary valid tables at nominal size 2-4 with symbolic hashes and theta, the size arithmetic for every lg_k, hash_and_screen against the reference digest, and compact()/estimate on arbitrary small sketches.",
+         "Table instantiated below the public minimum lg_k = 5 (code parametric in the sizes); std select_nth_unstable / sort_unstable replaced by reference insertion-sort models of their contracts.", "DESIGN.md section 4 C04"),
+ "C05": ("Flavor / window-offset / pseudo-phase arithmetic against wide-integer specifications for every lg_k 4..=26 and every coupon count; PairTable insert/delete steps over every valid layout of 4/8 slots; one CpcSketch update from an arbitrary windowed state at lg_k = 4 and a 3-step history from empty, each compared with the bit-matrix model.",
+         "Sketch state at lg_k = 4 with <= 2 surprising values; the window-moving step is in the thorough tier only.", "DESIGN.md section 4 C05"),
+ "C06": ("The three OR kernels of the CPC union with row folding (symbolic matrices, window, offset and table) and the golden-ratio table walk stride for every table size.",
+         "Kernels instantiated with 4/8 rows (parametric code); CpcUnion::update dispatch and to_sketch at sketch level are not yet covered by a deciding harness - see DESIGN.", "DESIGN.md section 4 C06"),
+ "C07": ("ReversePurgeItemHashMap adjust / back-shift delete / purge steps over every valid 8-slot layout with symbolic home slots, and FrequentItemsSketch update_with_count / merge / frequent_items steps with ghost true counts for every key of the domain: bracket, exact total weight, error bound N/3 <= epsilon*N, capacity.",
+         "Map size 8, u64 items, key domain 8, weights < 2^58; hash_item replaced by an arbitrary symbolic function of the key; std select_nth_unstable replaced by a reference model; merge trees follow from the additive invariant (argued).", "DESIGN.md section 4 C07"),
+ "C08": ("One update / merge / halve / decay step of CountMinSketch for the 8 counter types from an arbitrary valid 2x3 table: table equals the model, one-sided guarantee for the updated item and a bystander via ghost true counts, estimate <= total; row seeds and entry arithmetic against reference derivations.",
+         "2x3 table; hash inputs concrete (constant-folded real MurmurHash) while table, weights and ghost counts are symbolic; decay factors concrete; the confidence (fraction) clause is statistical and not claimed.", "DESIGN.md section 4 C08"),
+ "C09": ("Bit-index arithmetic against a 128-bit specification for every hash pair, set/get bit, insert / contains_and_insert against the documented-position model with the reference XXH64, union / intersect / invert / reset with bits_used == popcount and membership preservation for every hash pair, serialization round trip.",
+         "Filters of 1-3 words; items and seeds concrete in the insert model (hash constant-folded); FPP clause is statistical and not claimed.", "DESIGN.md section 4 C09"),
+ "C10": ("rank / quantile range and monotonicity on concrete adversarial digests with symbolic queries (quick) and on symbolic 2-3 centroid digests (thorough), split-point handling incl. the empty list, cdf/pmf, total_weight/min/max of update.",
+         "Digests of <= 3 centroids; symbolic-digest harnesses restrict values to integers |x| <= 2^20 and are thorough-tier only (float division circuits); boundary centroids of weight 1 assumed to sit at min/max; rank(quantile(q)) resolution is not claimed.", "DESIGN.md section 4 C10"),
+ "C11": ("deserialize(serialize(s)) restores every field for symbolic states of Bloom, Count-Min (8 types), Frequent Items (u64), HLL list and Hll6/Hll8 arrays, compact theta v3 and v4 (every delta width), t-digest, plus the bit-packing and CPC coding kernels (all 63 widths, 22 Huffman tables, unary code, pair stream).",
+         "Small states (see bounds per harness); CPC flavor-level round trip only through its kernels; String items not covered.", "DESIGN.md section 4 C11"),
+ "C12": ("An independent decoder written in the harness from the Java/C++ format documentation recovers the symbolic state from serialize()'s bytes (preamble fields, flags, endianness, order, sizes) for Bloom, Count-Min, Frequent Items, HLL list/Hll6/Hll8, compact theta v3/v4, t-digest; bit packing equals the MSB-first bit stream for all widths.",
+         "The oracle is my transcription of the published layouts (trusted); CPC compressed payload layout only via its kernels.", "DESIGN.md section 4 C12"),
+ "C13": ("Images built by a spec encoder in the harness for variants this crate does not write (theta serial versions 1, 2 (empty/exact/estimating), 3 single-item; t-digest f32 and reference-implementation big-endian encodings; Bloom dirty bit count; HLL COMPACT-flag arrays) decode to the encoded state.",
+         "Small states; updatable Hll4 aux tables and non-compact list/set tables are covered by the parser harnesses of C14 only for no-panic, not for state equality.", "DESIGN.md section 4 C13"),
+ "C14": ("Every byte string up to 40-72 bytes (all bytes and the length symbolic) fed to the deserializers of Bloom, Count-Min, Frequent Items (u64), HLL (list/set and array modes at lg_k 4), compact theta (v1-v4) and t-digest (both modes + compat): no panic of any kind; Ok values are exercised by follow-up operations.",
+         "Buffers <= 72 bytes; allocation clause only for count fields (bounded preallocation is fixed in the repo) - configuration-sized allocations of empty images are outside the claim; CPC deserialize is checked through its decoding kernels only.", "DESIGN.md section 4 C14"),
+ "C15": ("Structural part only: capacity arithmetic for every k and the shared C10 harnesses; the centroid-count bound and rank accuracy depend on ln() over unbounded streams and are not claimed.",
+         "see C10.", "DESIGN.md section 4 C15"),
+ "C16": ("MurmurHash3 write() and XXH64 write() as inductive steps over arbitrary hasher states and chunk contents for boundary (buffered, chunk) length pairs, finish128/finish64 for every tail length, one-shot equality with independently written references, seed hash, coupon / theta hash / Count-Min seeds / Bloom positions derivations.",
+         "64-bit multiplication abstracted as an uninterpreted function (sound for the equalities proved); chunk lengths <= 33 / 65 bytes; std Hash impls are std's contract.", "DESIGN.md section 4 C16"),
+ "C17": ("Kani's automatic checks (overflow, bounds, debug_assert, assert, unreachable, unwrap/expect, division by zero, shift) are part of every harness of C02-C10; dedicated arithmetic harnesses cover the documented extremes (pseudo-phase, flavor, offsets, Golomb parameters, buffer lengths, Array6 window, capacities) for their whole admissible ranges.",
+         "Dev-profile semantics (overflow checks and debug assertions on); release profile by native replay of counterexamples only.", "DESIGN.md section 4 C17"),
+ "C18": ("Image length equals the layout's size formula for HLL list/Hll6/Hll8, Bloom, Count-Min, t-digest, theta; list <= 8 coupons, set load <= 3/4, theta entries <= 15/16 * 2k after every insert and k after trim, Frequent Items num_active <= capacity after every update/merge.",
+         "Step invariants at the small sizes of C02/C04/C07; CPC 0.1% size clause is statistical and not claimed.", "DESIGN.md section 4 C18"),
 }
 NOT_APPLICABLE = {
 }
